@@ -6,7 +6,7 @@ compared with what those returned values imply.
 from collections import Counter
 
 from .. import bl, gen
-from ..core import Prop, Workload
+from ..core import Inconclusive, Prop, Workload
 
 
 import os
@@ -70,7 +70,25 @@ def wl_heavy(ctx, rng, case):
     for step in range(n_steps):
         bl.noise_reads(ctx, rng, hh, keys)
         r = rng.random()
-        if r < 0.93:
+        if r < 0.05:
+            # an addition the sketch REFUSES (an amount that is no integer, a hash list deeper than the sketch): no estimate is returned, so
+            # the table still follows the most recent estimates that WERE returned - now and through every later addition
+            k = rng.choice([x for x in keys if x not in last] or keys)
+            how = rng.choice(["float amount", "None amount", "deeper hash list"])
+            case.op("add-refused", k, how)
+            try:
+                if how == "float amount":
+                    ret = hh.add(k, 2.0)
+                elif how == "None amount":
+                    ret = hh.add(k, None)
+                else:
+                    ret = hh.add_alt(k, list(hh.hashes(k)) + [7, 11], 1)
+                last[k] = ret  # an implementation that accepts the call has performed an addition
+            except Exception:
+                ctx.count("heavy.refused_additions")
+                if len(last) < H:
+                    ctx.count("heavy.refused_additions_while_the_table_is_filling")
+        elif r < 0.93:
             k = rng.choice(keys)
             n = rng.choice([1, 1, 1, 2, 3, 10]) if rng.random() < 0.93 else 0  # an add of nothing still returns an estimate the table must follow
             was_tracked = set(hh.heavy_hitters) if every == 1 else set()
@@ -152,7 +170,25 @@ def wl_threshold(ctx, rng, case):
         bl.noise_reads(ctx, rng, st, keys)
         r = rng.random()
         live = [k for k in keys if true[k] > 0]
-        if r < 0.6 or not live:
+        if r < 0.04:
+            # a REFUSED addition / removal (amount that is no integer, hash list deeper than the sketch): nothing was returned, the table stays
+            k = rng.choice(keys)
+            how = rng.choice(["float amount", "None amount", "deeper hash list"])
+            case.op("refused", k, how)
+            try:
+                fn = rng.choice([st.add, st.remove])
+                if how == "float amount":
+                    fn(k, 2.0)
+                elif how == "None amount":
+                    fn(k, None)
+                else:
+                    st.add_alt(k, list(st.hashes(k)) + [7, 11], 0)
+                raise Inconclusive("a call the unchanged library refuses was accepted")
+            except Inconclusive:
+                raise
+            except Exception:
+                ctx.count("threshold.refused_calls")
+        elif r < 0.6 or not live:
             k = rng.choice(keys)
             n = rng.choice([1, 1, 2, 3, 5]) if rng.random() < 0.93 else 0
             if rng.random() < 0.85:
